@@ -48,7 +48,7 @@ def pick_redirect_uri(
                 except KeyError:
                     redirect_uri = _redirect_uris["query"][0]
             else:
-                redirect_uri = _redirect_uris[_response_mode]
+                redirect_uri = _redirect_uris[_response_mode][0]
         else:
             if not response_type:
                 _conf_resp_types = context.get_usage("response_types", [])
